@@ -15,15 +15,30 @@
 (*                nothing else changed (C03)                               *)
 (*   WrapRefused  a length that does not fit its prefix is refused, one    *)
 (*                that fits is written with that very length (C18)         *)
+(*   SpareIgnored what a writer appends (or that it refuses) is a function *)
+(*                of the call alone: it does not depend on what an earlier *)
+(*                use of a recycled buffer left in the spare capacity      *)
+(*                behind the buffer's end (C13, C18; C06 at this level)    *)
+(* The buffer is the code's bytes.Buffer: mem, rd and `spare`, the bytes   *)
+(* lying in the backing array behind the buffer's end.  Two initial        *)
+(* states: a fresh buffer (no spare bytes) and a recycled one (SpareLen    *)
+(* stale bytes).  Deviations (SpareDev) that must each violate an          *)
+(* invariant: "PadFromSpare" (NUL pad bytes are not written, the spare     *)
+(* capacity is assumed to be zero), "RoomySkipsCheck" (the prefix check is *)
+(* part of growing the buffer and is skipped when there is room).          *)
 (* Every behaviour (call, bytes, result of the read-back) is exported and  *)
 (* replayed on the real primitives (direction A).                          *)
 (***************************************************************************)
 EXTENDS Prims, SequencesExt
 
-CONSTANTS Calls, BreakPair    \* BreakPair: sensitivity switch - render list elements big-endian in the LE variant
+CONSTANTS Calls, BreakPair,   \* BreakPair: sensitivity switch - render list elements big-endian in the LE variant
+          SpareLen, SpareDev  \* stale bytes behind the end of a recycled buffer; "none" | "PadFromSpare" | "RoomySkipsCheck"
 
-VARIABLES mem, rd, phase, call, wres, rres
-vars == <<mem, rd, phase, call, wres, rres>>
+VARIABLES mem, rd, phase, call, wres, rres,
+          spare,      \* the bytes behind the buffer's end in its backing array
+          recycled    \* this behaviour started on a recycled buffer
+vars == <<mem, rd, phase, call, wres, rres, spare, recycled>>
+StaleBytes == [i \in 1..SpareLen |-> 238 - (i % 7)]
 
 ReaderOf(fn) ==
   CASE fn = "WriteBasicType" -> "ReadBasicType" [] fn = "WriteBasicTypeList" -> "ReadBasicTypeList"
@@ -40,23 +55,33 @@ MWrite(c) ==
            le == PWrite(c.fn, c.a)
        IN IF ~le.ok THEN le
           ELSE [le EXCEPT !.bytes = SubSeq(le.bytes, 1, c.a.pw) \o SubSeq(be.bytes, c.a.pw + 1, Len(be.bytes))]
-  ELSE PWrite(c.fn, c.a)
+  ELSE LET W == PWrite(c.fn, c.a) IN
+       IF SpareDev = "PadFromSpare" /\ c.fn = "WriteFixedStringWithPadding" /\ c.a.pad = 0 /\ W.ok /\ Len(spare) >= Len(W.bytes)
+       THEN (* the value is laid out in the spare capacity, the NUL pad bytes are "already there" *)
+            LET k == Len(c.a.s) IN
+            [W EXCEPT !.bytes = [i \in 1..Len(W.bytes) |->
+                 IF (c.a.left /\ i <= Len(W.bytes) - k) \/ (~c.a.left /\ i > k) THEN spare[i] ELSE W.bytes[i]]]
+       ELSE IF SpareDev = "RoomySkipsCheck" /\ c.fn = "WriteString" /\ ~W.ok /\ Len(spare) >= c.a.pw + Len(TextOf(c.a))
+       THEN [W EXCEPT !.ok = TRUE, !.bytes = Ord(EndOf(c.a), Digits(Len(TextOf(c.a)) % 256, c.a.pw)) \o TextOf(c.a)]
+       ELSE W
 
-Init == mem = <<>> /\ rd = 0 /\ phase = "idle" /\ call = [fn |-> "none"] /\ wres = [ok |-> TRUE] /\ rres = [ok |-> TRUE]
+Init == /\ mem = <<>> /\ rd = 0 /\ phase = "idle" /\ call = [fn |-> "none"] /\ wres = [ok |-> TRUE] /\ rres = [ok |-> TRUE]
+        /\ spare \in {<<>>, StaleBytes} /\ recycled = (spare # <<>>)
 
 DoWrite(c) ==
   /\ phase = "idle"
   /\ LET W == MWrite(c) IN
      /\ wres' = W
      /\ mem' = IF W.ok THEN mem \o W.bytes ELSE mem
-  /\ call' = c /\ phase' = "written" /\ UNCHANGED <<rd, rres>>
+     /\ spare' = IF W.ok THEN Drop(spare, IF Len(W.bytes) < Len(spare) THEN Len(W.bytes) ELSE Len(spare)) ELSE spare
+  /\ call' = c /\ phase' = "written" /\ UNCHANGED <<rd, rres, recycled>>
 
 DoRead ==
   /\ phase = "written" /\ wres.ok
   /\ LET R == PRead(ReaderOf(call.fn), call.a, Drop(mem, rd)) IN
      /\ rres' = R
      /\ rd' = IF R.ok THEN rd + R.used ELSE rd
-  /\ phase' = "read" /\ UNCHANGED <<mem, call, wres>>
+  /\ phase' = "read" /\ UNCHANGED <<mem, call, wres, spare, recycled>>
 
 Next == (\E c \in Calls : DoWrite(c)) \/ DoRead
 Spec == Init /\ [][Next]_vars
@@ -93,7 +118,10 @@ WrapRefused ==
     /\ wres.ok <=> Fits(LenOfArg(call), call.a.pw)
     /\ wres.ok => ValCap(Ord(EndOf(call.a), SubSeq(wres.bytes, 1, call.a.pw))) = LenOfArg(call)
 
+SpareIgnored == phase = "written" => LET W == PWrite(call.fn, call.a) IN wres.ok = W.ok /\ (W.ok => wres.bytes = W.bytes)
+
 Export == phase \in {"read"} \/ (phase = "written" /\ ~wres.ok) =>
             PrintT(<<"PRIMCASE", ToJson([fn |-> call.fn, a |-> call.a, ok |-> wres.ok, bytes |-> IF wres.ok THEN wres.bytes ELSE <<>>,
-                                         rfn |-> ReaderOf(call.fn), ret |-> IF wres.ok THEN rres.ret ELSE <<>>])>>)
+                                         rfn |-> ReaderOf(call.fn), ret |-> IF wres.ok THEN rres.ret ELSE <<>>,
+                                         recycled |-> recycled, stale |-> IF recycled THEN StaleBytes ELSE <<>>])>>)
 =============================================================================
